@@ -267,6 +267,8 @@ func checkProperty(sc scenario, o outcome) []finding {
 					fs = append(fs, finding{"search-unknown-id", fmt.Sprintf("reader %d returned %s which no submitted bulk contains", r.idx, key)})
 				case d.mid < r.from || d.mid > r.to:
 					fs = append(fs, finding{"search-out-of-range", fmt.Sprintf("reader %d returned %s outside [%d,%d]", r.idx, key, r.from, r.to)})
+				case !r.q.sat(d) && !r.q.hasNot():
+					fs = append(fs, finding{"search-foreign-id", fmt.Sprintf("reader %d, negation-free query %s returned %s with tokens %v", r.idx, r.qs, key, d.toks)})
 				case !r.q.sat(d):
 					fs = append(fs, finding{"search-result-violates-query", fmt.Sprintf("reader %d, query %s returned %s with tokens %v", r.idx, r.qs, key, d.toks)})
 				}
@@ -398,6 +400,10 @@ func scripted() []scenario {
 	// (getTokenProvider must take the per-field TID list before the tidToVal slice)
 	res = append(res, scenario{"dict-read-order", 2, [][]doc{{d(0, 0, 1, 1, 5)}, {d(1, 0, 2, 1, 6, 7)}},
 		cat(app(0), fullIdx(0, 2), []string{"srch:O.T5.T6:0:10"}, g("rdr0", 5), app(1), g("idx1", 6), g("rdr0", 2), g("idx1", 2), []string{"drain"})})
+	// a positive search that overlaps a bulk whose token lists are queued but whose `_all_` is not: the new LID must be
+	// skipped by inverseLIDs (its slot of the pooled inverser array is 0) - with residue in the recycled pool buffers
+	res = append(res, scenario{"overlap-inverser", 2, [][]doc{{d(0, 0, 9, 1, 5), d(0, 1, 3, 1, 6)}, {d(1, 0, 4, 1, 7)}},
+		cat(app(0), fullIdx(0, 3), app(1), g("idx1", 6), []string{"srch:T7:0:10", "srch:O.T7.T6:0:10"}, g("rdr0", 8), g("rdr1", 10), []string{"drain"})})
 	// the Lean witness c07_fetch_panic_witness: provider created, then a bulk adds a block and its positions
 	res = append(res, scenario{"witness-fetch", 2, [][]doc{{d(0, 0, 1, 1, 5)}, {d(1, 0, 1, 2, 5)}},
 		cat(app(0), fullIdx(0, 2), []string{"fetch:1.0+0.0"}, g("rdr0", 1), app(1), g("idx1", 2), g("rdr0", 3), []string{"drain"})})
@@ -837,6 +843,8 @@ func siteOf(class string) string {
 		return "frac/active_token_list.go:Append"
 	case "search-error":
 		return "frac/active_index.go:Search"
+	case "search-foreign-id":
+		return "frac/active_index.go:inverseLIDs"
 	case "fetch-error-unpublished-block":
 		return "frac/active.go:createDataProvider"
 	case "seal-hangs-after-write-error":
